@@ -7,7 +7,7 @@ import re
 
 V = os.path.dirname(os.path.dirname(os.path.abspath(__file__)))
 rows = []
-for d in sorted(glob.glob(os.path.join(V, "seeded", "*"))):
+for d in sorted(glob.glob(os.path.join(V, "seeded", "C*"))):
     sid = os.path.basename(d)
     try:
         meta = json.load(open(os.path.join(d, "meta.json")))
@@ -35,9 +35,29 @@ txt = ["Each change was written by a fresh sub-agent that saw only the property 
        "|---|---|---|---|---|"]
 for r in rows:
     txt.append("| " + " | ".join(r) + " |")
+brows = []
+for d in sorted(glob.glob(os.path.join(V, "seeded", "benign", "*"))):
+    try:
+        res = json.load(open(os.path.join(d, "result.json")))
+    except Exception:
+        continue
+    notes = open(os.path.join(d, "notes.md")).read() if os.path.exists(os.path.join(d, "notes.md")) else ""
+    first = next((l.strip(" #*-") for l in notes.splitlines() if len(l.strip(" #*-")) > 25), "")
+    silent = sorted(k for k, v in res["checks"].items() if v.get("silent"))
+    loud = sorted(k for k, v in res["checks"].items() if not v.get("silent"))
+    brows.append((res["id"], first[:150].replace("|", "/"), "yes" if res["suite_passes"] else "NO", ", ".join(silent), ", ".join(loud) or "-"))
 own = sum(1 for r in rows if any(c.startswith(r[1] + ":") for c in r[3].split(", ")))
 txt.append("")
 txt.append(f"{len(rows)} confirmed seeded changes; {own} caught by the check of the property they were written against.")
+txt += ["", "**Behaviour-preserving changes (false-alarm control).** Three further sub-agents were given all 20 property statements and asked for",
+        "refactorings that keep every property true (renamed private attributes and helpers, changed internal buffering, re-implemented",
+        "operators, moved loops, reworded messages). `tools/seeded.py benign` applies each to a scratch copy, requires the baseline suite to pass,",
+        "and runs the checks of the properties whose code the change touches: every one must exit 0 without a VIOLATION line.", "",
+        "| change | what it does | suite passes | checks that stayed silent | checks that raised an alarm |", "|---|---|---|---|---|"]
+for r in brows:
+    txt.append("| " + " | ".join(r) + " |")
+txt.append("")
+txt.append(f"{len(brows)} behaviour-preserving changes; {sum(1 for r in brows if r[4] == '-')} left every check silent.")
 p = os.path.join(V, "DESIGN.md")
 s = open(p).read()
 s = re.sub(r"<!-- CATCH-MATRIX-BEGIN -->.*<!-- CATCH-MATRIX-END -->", "<!-- CATCH-MATRIX-BEGIN -->\n" + "\n".join(txt) + "\n<!-- CATCH-MATRIX-END -->", s, flags=re.S)
